@@ -132,7 +132,11 @@ def history_case(rng, cid, nops):
             r = rng.random() * 96          # drain / close_all / dump only in the second half
         if r < 34:
             ops.append(["cd", rng.choice(ips), rng.choice(ports), payload(rng, max_rx)])
-            if rng.random() < 0.45:
+            rr = rng.random()
+            if rr < 0.45:
+                b = rng.choice(BACKENDS)
+                ops.append(["resnew", b[0], b[1], b[2]])       # what the shell does: resolve at once
+            elif rr < 0.6:
                 b = rng.choice(BACKENDS)
                 ops.append(["res", ids(), b[0], b[1], b[2]])
         elif r < 46:
@@ -187,7 +191,10 @@ def steady_case(rng, cid):
         if r < 0.5:
             ops.append(["cd", rng.choice(IPS), rng.choice(PORTS[:2]), payload(rng, max_rx)])
             b = rng.choice(BACKENDS)
-            ops.append(["res", nxt % (cap + 1), b[0], b[1], b[2]])
+            if rng.random() < 0.7:
+                ops.append(["resnew", b[0], b[1], b[2]])
+            else:
+                ops.append(["res", nxt % (cap + 1), b[0], b[1], b[2]])
             nxt += 1
         elif r < 0.8:
             ops.append(["bd", rng.randint(0, cap), payload(rng, max_rx)])
@@ -248,7 +255,11 @@ def e2e_case(rng, cid):
     nb = rng.choice([1, 2, 3])
     ops = [["setup", wp, responses, requests, pp, max_flows, nb]]
     count = {}
+    flips = rng.random() < 0.3
     for _ in range(rng.randint(5, 14)):
+        if flips and rng.random() < 0.2:
+            wp = 1 - wp
+            ops.append(["recluster", wp])     # cluster update flipping the affinity key under live flows
         ci = rng.randrange(0, 6)
         count[ci] = count.get(ci, 0) + 1
         tag = ("c%d-%d" % (ci, count[ci])).encode()
